@@ -644,6 +644,25 @@ theorem forgetEverything_inv {s : State} (h : Inv s) : Inv (forgetEverything s) 
     by simp [forgetEverything], ?_, by simp [forgetEverything], h.stamp_lt⟩
   simp [forgetEverything]
 
+theorem isMemoized_inv {s : State} (k : Key) (h : Inv s) : Inv (isMemoized s k).1 := by
+  simp only [isMemoized]
+  split
+  · rename_i hk; exact markUsed_inv k h ((hasKey_iff _ _).mp hk)
+  · exact h
+
+theorem isAllMemoized_inv (ks : List Key) : ∀ {s : State}, Inv s → Inv (isAllMemoized s ks).1 := by
+  induction ks with
+  | nil => intro s h; exact h
+  | cons k ks ih => intro s h; simp only [isAllMemoized]; exact ih (isMemoized_inv k h)
+
+theorem isMemoized_budget (s : State) (k : Key) : (isMemoized s k).1.budget = s.budget := by
+  simp only [isMemoized]; split <;> rfl
+
+theorem isAllMemoized_budget (ks : List Key) : ∀ (s : State), (isAllMemoized s ks).1.budget = s.budget := by
+  induction ks with
+  | nil => intro s; rfl
+  | cons k ks ih => intro s; simp only [isAllMemoized]; rw [ih, isMemoized_budget]
+
 theorem stepRaw_inv {s : State} (op : Op) (h : Inv s) : Inv (stepRaw s op).1 := by
   cases op with
   | put k m v sz wr hr vc => exact put_inv k m v sz wr hr vc h
@@ -664,6 +683,7 @@ theorem stepRaw_inv {s : State} (op : Op) (h : Inv s) : Inv (stepRaw s op).1 := 
     split
     · rename_i hk; exact markUsed_inv k h ((hasKey_iff _ _).mp hk)
     · exact h
+  | allmem ks => exact isAllMemoized_inv ks h
   | fcall k => exact evict_inv k (refs_irrelevant h rfl rfl rfl rfl rfl rfl)
   | ffn fn => exact foldl_evict_inv _ (refs_irrelevant h rfl rfl rfl rfl rfl rfl)
   | fall => exact forgetEverything_inv h
@@ -714,6 +734,7 @@ theorem step_budget (s : State) (op : Op) : (step s op).1.budget = s.budget := b
     · split <;> rfl
     · split <;> rfl
   | ismem k => simp only [step, stepRaw, prune, isMemoized]; split <;> rfl
+  | allmem ks => simp only [step, stepRaw, prune, isAllMemoized_budget]
   | fcall k => simp only [step, stepRaw, prune, forgetCall, evict_budget]
   | ffn fn => simp only [step, stepRaw, prune, forgetFunction, foldl_evict_budget]
   | fall => rfl
@@ -724,5 +745,61 @@ theorem run_budget (ops : List Op) : ∀ (s : State), (run s ops).budget = s.bud
   induction ops with
   | nil => intro s; rfl
   | cons op ops ih => intro s; simp only [run, List.foldl_cons] at ih ⊢; rw [ih, step_budget]
+
+/-! ### group queries (`is_all_memoized`) -/
+
+theorem isMemoized_cache (s : State) (k : Key) : (isMemoized s k).1.cache = s.cache := by
+  unfold isMemoized markUsed touchStamp; split <;> rfl
+
+theorem isMemoized_refs (s : State) (k : Key) : (isMemoized s k).1.refs = s.refs := by
+  unfold isMemoized markUsed touchStamp; split <;> rfl
+
+theorem isMemoized_clock_le (s : State) (k : Key) : s.clock ≤ (isMemoized s k).1.clock := by
+  unfold isMemoized markUsed touchStamp; split <;> simp
+
+theorem isMemoized_stamp_other (s : State) (k j : Key) (hj : j ≠ k) : (isMemoized s k).1.stamp j = s.stamp j := by
+  unfold isMemoized markUsed touchStamp; split <;> simp [hj]
+
+theorem isMemoized_stamp_self (s : State) (k : Key) (hk : k ∈ keys s.cache) : (isMemoized s k).1.stamp k = s.clock := by
+  unfold isMemoized markUsed touchStamp
+  rw [if_pos ((hasKey_iff _ _).mpr hk)]; simp
+
+theorem isAllMemoized_cache (ks : List Key) : ∀ s : State, (isAllMemoized s ks).1.cache = s.cache := by
+  induction ks with
+  | nil => intro s; rfl
+  | cons k ks ih => intro s; simp only [isAllMemoized]; rw [ih, isMemoized_cache]
+
+theorem isAllMemoized_clock_le (ks : List Key) : ∀ s : State, s.clock ≤ (isAllMemoized s ks).1.clock := by
+  induction ks with
+  | nil => intro s; exact Nat.le_refl _
+  | cons k ks ih => intro s; simp only [isAllMemoized]; exact Nat.le_trans (isMemoized_clock_le s k) (ih _)
+
+theorem isAllMemoized_stamp_other (ks : List Key) (j : Key) (hj : j ∉ ks) :
+    ∀ s : State, (isAllMemoized s ks).1.stamp j = s.stamp j := by
+  induction ks with
+  | nil => intro s; rfl
+  | cons k ks ih =>
+    intro s
+    simp only [List.mem_cons, not_or] at hj
+    simp only [isAllMemoized]
+    rw [ih hj.2, isMemoized_stamp_other s k j hj.1]
+
+theorem isAllMemoized_stamp_queried (ks : List Key) (k : Key) (hk : k ∈ ks) :
+    ∀ s : State, k ∈ keys s.cache → s.clock ≤ (isAllMemoized s ks).1.stamp k := by
+  induction ks with
+  | nil => exact absurd hk (by simp)
+  | cons a ks ih =>
+    intro s hres
+    simp only [isAllMemoized]
+    by_cases hin : k ∈ ks
+    · have := ih hin (isMemoized s a).1 (by rw [isMemoized_cache]; exact hres)
+      exact Nat.le_trans (isMemoized_clock_le s a) this
+    · have hka : k = a := by
+        rcases List.mem_cons.mp hk with h | h
+        · exact h
+        · exact absurd h hin
+      subst hka
+      rw [isAllMemoized_stamp_other ks k hin, isMemoized_stamp_self s k hres]
+      exact Nat.le_refl _
 
 end Memento.Cache
